@@ -1,6 +1,7 @@
 import MindsVerif.Model.TextParse
 import MindsVerif.Lemmas.SlyLexSound
 import MindsVerif.Props.C05
+import MindsVerif.Props.C02Lex
 import MindsVerif.Gen.LexRe_sqlite
 import MindsVerif.Gen.LexRe_mysql
 import MindsVerif.Gen.LexRe_mindsdb
@@ -202,5 +203,144 @@ theorem C05_text_example :
      | (.ok segs, some (.accept _ _)) => ids langSqlite.names segs == [tid langSqlite.names "SELECT", tid langSqlite.names "INTEGER"]
      | _ => false) = true := by
   decide +kernel
+
+/-! ### [review] terminal ids are faithful: no token falls on the `idxOf` default, different names get different ids
+
+`tid names n = names.idxOf n` is total: a name that is not a terminal gets `names.length` (no terminal at all).
+`C05_text_full` alone would be satisfied by a `names` list that maps every token there.  `names_match_tables` has the data
+fact; these theorems connect it to the run. -/
+
+-- [review]
+theorem idxOf_inj' : ∀ (names : List String) (a b : String), a ∈ names → names.idxOf a = names.idxOf b → a = b
+  | [], _, _, h, _ => by cases h
+  | x :: r, a, b, ha, h => by
+    rw [List.idxOf_cons, List.idxOf_cons] at h
+    by_cases hxa : x = a
+    · by_cases hxb : x = b
+      · rw [← hxa, ← hxb]
+      · have e1 : (x == a) = true := by simpa using hxa
+        have e2 : (x == b) = false := by simpa using hxb
+        simp [e1, e2] at h
+    · by_cases hxb : x = b
+      · have e1 : (x == a) = false := by simpa using hxa
+        have e2 : (x == b) = true := by simpa using hxb
+        simp [e1, e2] at h
+      · have e1 : (x == a) = false := by simpa using hxa
+        have e2 : (x == b) = false := by simpa using hxb
+        simp only [e1, e2, cond_false, Nat.add_right_cancel_iff] at h
+        rcases List.mem_cons.mp ha with h0 | h0
+        · exact absurd h0.symm hxa
+        · exact idxOf_inj' r a b h0 h
+
+-- [review] a yielded token comes from a rule that is not ignored
+theorem tokensFrom_rule {c : SlyLex.Cfg} : ∀ (segs : List Seg) (i : Nat), AllOK c segs →
+    ∀ x ∈ tokensFrom i segs, ∃ r ∈ c.rules, r.name = x.1 ∧ r.ignored = false := by
+  intro segs
+  induction segs with
+  | nil => intro i _ x hx; simp [tokensFrom] at hx
+  | cons s r ih =>
+    intro i hok x hx
+    have hr : AllOK c r := fun y hy => hok y (List.mem_cons_of_mem _ hy)
+    cases s with
+    | skip ch => exact ih (i + 1) hr x (by simpa [tokensFrom] using hx)
+    | tok n ig t =>
+      simp only [tokensFrom] at hx
+      cases ig with
+      | true => exact ih _ hr x (by simpa using hx)
+      | false =>
+        simp only [Bool.false_eq_true, if_false] at hx
+        rcases List.mem_cons.mp hx with h | h
+        · subst h
+          obtain ⟨_, r0, hr0, hn, hig⟩ := hok _ List.mem_cons_self
+          exact ⟨r0, hr0, hn, hig⟩
+        · exact ih _ hr x h
+
+/-- side condition (decided for the live data in `names_match_tables`): every rule that yields is a terminal name -/
+def namesCover (L : Lang) : Bool := L.cfg.rules.all fun r => r.ignored || L.names.contains r.name
+
+/-- [review] **terminal ids are faithful**: on an accepted text every yielded token's name is a terminal name, its id is a
+real index of `names` (not the `idxOf` default), and two tokens with the same id have the same name -/
+theorem C05_text_ids_faithful (L : Lang) (hc : namesCover L = true) (s : List Nat) (segs : List Seg)
+    (h : lex L.cfg s = .ok segs) :
+    (∀ x ∈ tokensFrom 0 segs, x.1 ∈ L.names ∧ tid L.names x.1 < L.names.length ∧ L.names[tid L.names x.1]? = some x.1) ∧
+    (∀ x ∈ tokensFrom 0 segs, ∀ y ∈ tokensFrom 0 segs, tid L.names x.1 = tid L.names y.1 → x.1 = y.1) := by
+  have hok := lex_ok_allOK _ _ _ h
+  have hmem : ∀ x ∈ tokensFrom 0 segs, x.1 ∈ L.names := by
+    intro x hx
+    obtain ⟨r, hr, hn, hig⟩ := tokensFrom_rule segs 0 hok x hx
+    unfold namesCover at hc
+    have := (List.all_eq_true.mp hc) r hr
+    rw [hig] at this
+    simp only [Bool.false_or, List.contains_iff_mem] at this
+    rw [← hn]; exact this
+  constructor
+  · intro x hx
+    have hm := hmem x hx
+    have hlt : List.idxOf x.1 L.names < L.names.length := List.idxOf_lt_length_of_mem hm
+    refine ⟨hm, hlt, ?_⟩
+    unfold tid
+    rw [List.getElem?_eq_getElem hlt]
+    simp
+  · intro x hx y _ hxy
+    exact idxOf_inj' L.names x.1 y.1 (hmem x hx) hxy
+
+-- [review]
+theorem namesCover_live : namesCover langSqlite = true ∧ namesCover langMysql = true ∧ namesCover langMindsdb = true := by
+  decide +kernel
+
+/-! ### [review] non-vacuity on a realistic text -/
+
+-- [review] ``select 'a;' /* c */ from t -- x⏎;`` under the live MindsDB language (`.drain` mode): accepted; the `;` inside
+-- the string literal survives, the final `;` and the newline are what is stripped, the comments yield nothing, and the
+-- ids handed to the parser are exactly SELECT QUOTE_STRING FROM ID
+theorem review_text_example :
+    (match parseSql langMindsdb [115, 101, 108, 101, 99, 116, 32, 39, 97, 59, 39, 32, 47, 42, 32, 99, 32, 42, 47, 32, 102, 114,
+        111, 109, 32, 116, 32, 45, 45, 32, 120, 10, 59] 2000 with
+     | (.ok segs, some (.accept _ _)) =>
+         ids langMindsdb.names segs == ["SELECT", "QUOTE_STRING", "FROM", "ID"].map (tid langMindsdb.names) &&
+         flat segs == [115, 101, 108, 101, 99, 116, 32, 39, 97, 59, 39, 32, 47, 42, 32, 99, 32, 42, 47, 32, 102, 114,
+           111, 109, 32, 116, 32, 45, 45, 32, 120]
+     | _ => false) = true := by
+  decide +kernel
+
+-- [review] a lexer error inside an otherwise fine statement is not accepted and is reported as the lexer outcome
+theorem review_text_lexerr :
+    (match parseSql langSqlite [115, 101, 108, 101, 99, 116, 32, 49, 32, 35] 1000 with
+     | (.err 9 _, some (.accept _ _)) => false
+     | (.err 9 _, some _) => true
+     | _ => false) = true := by
+  decide +kernel
+
+/-- [review] the lexer outcome reported by `parseSql` is the run on the stripped text -/
+theorem parseSql_fst (L : Lang) (s : List Nat) (fuel : Nat) : (parseSql L s fuel).1 = lex L.cfg (rstrip L.strip s) := by
+  unfold parseSql
+  cases lex L.cfg (rstrip L.strip s) <;> rfl
+
+/-- [review] **what the doc comment promises and `AllOK` does not give**: on an accepted text every piece of the run is what
+the tokenize loop takes at its position of the (stripped) full text — a skipped `ignore` character or the match of the first
+rule, in rule order, that matches there (`C02Lex.Steps`); `AllOK` only says that the piece carries the NAME of some rule -/
+theorem C05_text_run (L : Lang) (hv : L.tables.valid = true) (hn : namesOK L = true)
+    (s : List Nat) (fuel : Nat) (o : Out) (t : PT) (log : List Nat)
+    (h : parseSql L s fuel = (o, some (.accept t log))) :
+    ∃ segs, o = .ok segs ∧
+      MindsVerif.Props.C02Lex.Steps L.cfg ⟨[], rstrip L.strip s⟩ segs ⟨(rstrip L.strip s).reverse, []⟩ := by
+  obtain ⟨segs, ho, _⟩ := C05_text_generic L hv hn s fuel o t log h
+  have h1 := parseSql_fst L s fuel
+  rw [h] at h1
+  simp only at h1
+  rw [ho] at h1
+  exact ⟨segs, ho, MindsVerif.Props.C02Lex.C02_lexer_run_spec _ _ _ h1.symm⟩
+
+-- [review]
+def C05_text_run_mindsdb := C05_text_run langMindsdb Tables_mindsdb.valid namesOK_mindsdb
+
+/-- the whole way from the argument of `parse_sql` to the parser, statement by statement: strip, get the lexer / parser of the
+dialect, tokenize THE STRIPPED TEXT (not a function of it), hand the token generator to the parser.  [review: `strip_pin`
+alone would let `lexer.tokenize(f(sql))` pass] -/
+theorem prelude_pin :
+    LexRe_mindsdb.prelude = ["sql = re.sub('[\\\\s;]+$', '', sql)", "lexer, parser = get_lexer_parser(dialect)",
+      "tokens = lexer.tokenize(sql)", "ast = parser.parse(tokens)"] ∧
+    LexRe_sqlite.prelude = LexRe_mindsdb.prelude ∧ LexRe_mysql.prelude = LexRe_mindsdb.prelude := by
+  decide
 
 end MindsVerif.Props.C05Text
